@@ -347,3 +347,190 @@ Proof.
   - intros off b H. unfold toy_inflate. rewrite (has_at_slice_N _ off (toy_compress b) _ H eq_refl). reflexivity.
   - vm_compute. reflexivity.
 Qed.
+
+(* ------------------------------------------------------------------------------------------
+   Part 4: bigBed.  The writer model is Model/BigBedWrite.v (bb_write / bb_write_multipass: byte-exact,
+   uncompressed, over the coverage sweeps of Model/BedSweep.v); the decoder's bigBed-specific parts are
+   the entry records (chromId, start, end, NUL-terminated rest, repeated to the end of the block), the
+   autoSql text at its offset (NUL-terminated before the total summary), the field counts, and two
+   tolerances: only the START of an entry has to lie inside the chromosome, and zoom records may end
+   past the chromosome length (the writer checks entry starts only). *)
+From BT Require Import Model.BigBedWrite Proofs.C09BedBlock Proofs.C09BedFile Proofs.C09BedZoom Proofs.C09BedWhole.
+From BT Require Model.BedSweep Proofs.BedQuery Proofs.BedImage Proofs.BedEndToEnd.
+
+(* bigBed data block codec: the bytes encode_section writes for entries with 32-bit coordinates and NUL-free
+   rest fields parse back to exactly those entries (no [0,0) exclusion: the decoder has no padding rule) *)
+Theorem C09_bb_block_codec : forall chrom, chrom < W32 -> forall items fuel, Forall bentry_ok items ->
+  (length (flat_map (entry_bytes chrom) items) <= fuel)%nat ->
+  parse_bed_items false fuel (flat_map (entry_bytes chrom) items) = Some (map (brec_of chrom) items).
+Proof. exact parse_bed_items_ok. Qed.
+Print Assumptions C09_bb_block_codec.
+
+(* The whole file.  [bed_hyps]: block_size <= 65535, items_per_slot <= 65535, fewer than 65536 chromosomes, names
+   non-empty / NUL-free / shorter than 2^32, entry coordinates < 2^32, rest fields NUL-free, chromosome sizes < 2^32,
+   file shorter than 2^64 bytes (block_size >= 2 and items_per_slot >= 1 are no hypotheses: the writer refuses
+   otherwise).  For every accepted input, every autoSql (None = the library's BED3 text), every arithmetic mode
+   and EVERY inflate oracle (the file is uncompressed) the independent decoder returns [bed_content_of]:
+   the chromosome table (name, id, size) in id order, exactly the input entries (C09_bb_records_are_input), the
+   entries per block (C09_bb_blocks: 1..items_per_slot, one chromosome), the autoSql text verbatim and the field
+   counts as stored, item count = number of input entries, the 40 summary bytes of BedSweep's bb_total_summary
+   (C09_bb_summary_is_sweep; C06_bb_summary ties it to the depth statistics), and for every written level
+   the records bb_zoom_records produced (C09_bb_level_is_records; C08_stats / C08_partition tie them to depth).
+   The levels written are a strictly increasing sub-list of the candidate resolutions, at most 10. *)
+Theorem C09_bb_decode_encode : forall fp o sizes autosql input bs inflate,
+  bb_write fp o sizes autosql input = Ok bs -> bed_hyps o sizes input bs ->
+  Forall (fun z => z < W32) (zoom_sizes_single o) ->
+  o_sort_all o = true ->
+  exists fc ids outs kept,
+    bb_schema autosql = Ok (stored_autosql autosql, fc) /\ bb_collect o sizes input = Ok (ids, outs)
+    /\ incl kept (zoom_sizes_single o) /\ inc_from 0 kept /\ Nlen kept <= 10
+    /\ Forall (level_runs fp o outs) kept
+    /\ decode bs inflate = Some (bed_content_of fp o sizes input (stored_autosql autosql) fc ids outs kept).
+Proof.
+  intros fp o sizes autosql input bs inflate H Hh Hu Hs.
+  exact (bb_write_single_decodes fp o sizes autosql input bs true inflate H Hh Hu (fun _ => Hs)).
+Qed.
+Print Assumptions C09_bb_decode_encode.
+
+Theorem C09_bb_decode_encode_multipass : forall fp o sizes autosql input bs inflate,
+  bb_write_multipass fp o sizes autosql input = Ok bs -> bed_hyps o sizes input bs ->
+  manual_u32 o ->
+  o_sort_all o = true ->
+  exists fc ids outs kept,
+    bb_schema autosql = Ok (stored_autosql autosql, fc) /\ bb_collect o sizes input = Ok (ids, outs)
+    /\ inc_from 0 kept /\ Nlen kept <= 10
+    /\ Forall (level_runs fp o outs) kept
+    /\ decode bs inflate = Some (bed_content_of fp o sizes input (stored_autosql autosql) fc ids outs kept).
+Proof.
+  intros fp o sizes autosql input bs inflate H Hh Hu Hs.
+  exact (bb_write_multipass_decodes fp o sizes autosql input bs true inflate H Hh Hu (fun _ => Hs)).
+Qed.
+Print Assumptions C09_bb_decode_encode_multipass.
+
+(* without any assumption on the order of the chromosomes, for the decoder that tolerates unsorted keys *)
+Theorem C09_bb_decode_encode_lenient : forall fp o sizes autosql input bs inflate,
+  bb_write fp o sizes autosql input = Ok bs \/ bb_write_multipass fp o sizes autosql input = Ok bs ->
+  bed_hyps o sizes input bs ->
+  Forall (fun z => z < W32) (zoom_sizes_single o) -> manual_u32 o ->
+  exists fc ids outs kept,
+    bb_schema autosql = Ok (stored_autosql autosql, fc) /\ bb_collect o sizes input = Ok (ids, outs)
+    /\ inc_from 0 kept /\ Nlen kept <= 10
+    /\ Forall (level_runs fp o outs) kept
+    /\ decode_lenient bs inflate = Some (bed_content_of fp o sizes input (stored_autosql autosql) fc ids outs kept).
+Proof.
+  intros fp o sizes autosql input bs inflate [H|H] Hh Hu1 Hu2.
+  - destruct (bb_write_single_decodes fp o sizes autosql input bs false inflate H Hh Hu1 ltac:(discriminate))
+      as (fc & ids & outs & kept & A & B & _ & C & D & E & F). exists fc, ids, outs, kept.
+    split; [exact A|]. split; [exact B|]. split; [exact C|]. split; [exact D|]. split; [exact E|exact F].
+  - exact (bb_write_multipass_decodes fp o sizes autosql input bs false inflate H Hh Hu2 ltac:(discriminate)).
+Qed.
+Print Assumptions C09_bb_decode_encode_lenient.
+
+(* what [bed_content_of] holds, in terms of the input alone *)
+(* the records: the input entries in input order, each with the id of its chromosome *)
+Theorem C09_bb_records_are_input : forall o sizes input ids outs,
+  bb_collect o sizes input = Ok (ids, outs) -> brecs_of outs = bed_input_records ids input.
+Proof. exact bed_records_are_input. Qed.
+Print Assumptions C09_bb_records_are_input.
+
+(* the chromosomes: the runs of equal names of the input, pairwise distinct, numbered 0,1,2,.. in order of
+   first appearance, each with the supplied size; the runs concatenate to the input *)
+Theorem C09_bb_outs_are_runs : forall o sizes input ids outs, bb_collect o sizes input = Ok (ids, outs) ->
+  map (fun c => (bc_name c, bc_entries c)) outs = bruns input
+  /\ map bc_id outs = seqN 0 (length (bruns input))
+  /\ ids = combine (map fst (bruns input)) (seqN 0 (length (bruns input)))
+  /\ NoDup (map fst (bruns input))
+  /\ BedQuery.untag (bruns input) = input
+  /\ Forall (fun c => lookup (bc_name c) sizes = Some (bc_len c)) outs.
+Proof. exact bed_outs_are_runs. Qed.
+Print Assumptions C09_bb_outs_are_runs.
+
+(* the blocks: each holds between 1 and items_per_slot entries of one chromosome, and the blocks concatenate
+   to the records *)
+Theorem C09_bb_blocks : forall ips (outs : list bchrom), 1 <= ips ->
+  Forall (fun g : N * list entry => 1 <= Nlen (snd g) <= ips) (BedImage.gsecs ips (BedEndToEnd.groups_of outs))
+  /\ concat (map (fun g : N * list entry => map (brec_of (fst g)) (snd g)) (BedImage.gsecs ips (BedEndToEnd.groups_of outs))) = brecs_of outs.
+Proof. exact bed_blocks_sized. Qed.
+Print Assumptions C09_bb_blocks.
+
+(* the total summary is BedSweep's bb_total_summary over the runs of the input *)
+Theorem C09_bb_summary_is_sweep : forall fp o sizes input ids outs, bb_collect o sizes input = Ok (ids, outs) ->
+  bb_sweep fp outs = BedSweep.bb_total_summary fp (map (fun r : name * list entry => map to_sw (snd r)) (bruns input)).
+Proof. exact bed_summary_is_sweep. Qed.
+Print Assumptions C09_bb_summary_is_sweep.
+
+(* a written level: chromosome by chromosome, in file order, exactly what bb_zoom_records returns *)
+Theorem C09_bb_level_is_records : forall fp o outs size, level_runs fp o outs size ->
+  exists per : list (list (list zrec)),
+    Forall2 (fun c recs => BedSweep.bb_zoom_records fp (o_ips o) size (bc_id c) (sw_entries c) = Ok recs) outs per
+    /\ bb_level_content fp o outs size = (size, map (zr_view fp) (concat (concat per))).
+Proof. exact bed_level_is_records. Qed.
+Print Assumptions C09_bb_level_is_records.
+
+(* every zoom section process_val_zoom sends holds between 1 and items_per_slot records (any arithmetic mode) *)
+Theorem C09_bb_zoom_sections_sized : forall fp ips size chrom es secs, 1 <= ips ->
+  BedSweep.bb_zoom_records fp ips size chrom es = Ok secs -> Forall (fun rs : list zrec => rs <> [] /\ Nlen rs <= ips) secs.
+Proof. exact tile_sections_sized. Qed.
+Print Assumptions C09_bb_zoom_sections_sized.
+
+(* "the correct statistics", made explicit by composing with C06's and C08's theorems about the sweeps (exact
+   arithmetic; the IEEE instance equals it below 2^53: C06_bb_summary_ieee, and has the same record geometry:
+   C08_geometry_any_mode): the summary the decoder returns for a written bigBed is (item count, covered bases,
+   sum of depth, sum of depth^2, min / max depth over the covered bases) of the chromosome runs of the input *)
+From BT Require Import Spec.Depth Proofs.C09BedStats.
+From BT Require Proofs.BedSummary Proofs.BedTile Proofs.C06FileBed.
+Theorem C09_bb_summary_statistics : forall U o sizes input ids outs,
+  bb_collect o sizes input = Ok (ids, outs) -> U <= BedSweep.U32_MAX -> Forall (fun it : bitem => e_end (snd it) <= U) input ->
+  let chroms := C06FileBed.chroms_of input in
+  BedSummary.sform (bb_sweep exact outs)
+    (Nlen input) (sumN (map (BedSummary.c_cov U) chroms)) (sumN (map (BedSummary.c_sum U) chroms))
+    (sumN (map (BedSummary.c_sumsq U) chroms))
+    (fold_left (fun a es => opt_meet N.min a (BedSummary.c_min U es)) chroms None)
+    (fold_left (fun a es => opt_meet N.max a (BedSummary.c_max U es)) chroms None).
+Proof. exact bed_summary_statistics. Qed.
+Print Assumptions C09_bb_summary_statistics.
+
+(* every level, every chromosome: the tiling run succeeds, its records are the ones in the level, each record holds
+   the depth statistics of its span and every base with depth > 0 lies in a record *)
+Theorem C09_bb_level_statistics : forall o sizes input ids outs size c,
+  bb_collect o sizes input = Ok (ids, outs) -> opts_ok o -> bed_input_ok input -> Nlen (bruns input) < W16 ->
+  Forall (fun s : name * N => snd s < W32) sizes ->
+  1 <= size -> In c outs ->
+  exists secs, BedSweep.bb_zoom_records exact (o_ips o) size (bc_id c) (sw_entries c) = Ok secs
+    /\ chrom_rsecs exact (o_ips o) size c = secs
+    /\ Forall (BedTile.zstats_spec (depth (sw_entries c))) (concat secs)
+    /\ (forall x, 0 < depth (sw_entries c) x -> BedTile.covered_by (concat secs) x).
+Proof. exact bed_level_statistics. Qed.
+Print Assumptions C09_bb_level_statistics.
+
+(* Non-vacuity: a bigBed with overlapping entries, an entry ending past its chromosome, rest fields, the default
+   autoSql, two chromosomes and two zoom levels meets every hypothesis of C09_bb_decode_encode, and the decoder
+   returns what the theorem says (3244 bytes). *)
+Definition c09_bb_opts : opts :=
+  {| o_compress := false; o_ips := 2; o_bs := 2; o_izoom := 10; o_maxzooms := 10; o_manual := Some [5; 40]; o_sort_all := true |}.
+Definition c09_bb_sizes : list (name * N) := [([98], 50); ([97], 100)].
+Definition c09_bb_input : list bitem :=
+  [([97], {| e_start := 0; e_end := 12; e_rest := [120; 9; 49] |}); ([97], {| e_start := 5; e_end := 9; e_rest := [] |});
+   ([97], {| e_start := 5; e_end := 130; e_rest := [121] |}); ([98], {| e_start := 3; e_end := 4; e_rest := [122] |})].
+Example C09_bb_whole_file_example : exists bs fc ids outs,
+  bb_write ieee c09_bb_opts c09_bb_sizes None c09_bb_input = Ok bs
+  /\ bb_collect c09_bb_opts c09_bb_sizes c09_bb_input = Ok (ids, outs)
+  /\ bed_hyps c09_bb_opts c09_bb_sizes c09_bb_input bs
+  /\ Forall (fun z => z < W32) (zoom_sizes_single c09_bb_opts) /\ manual_u32 c09_bb_opts /\ o_sort_all c09_bb_opts = true
+  /\ decode bs (fun _ _ => None) = Some (bed_content_of ieee c09_bb_opts c09_bb_sizes c09_bb_input (stored_autosql None) fc ids outs [5; 40])
+  /\ map (fun r => (fr_chrom r, fr_start r, fr_end r, fr_rest r)) (brecs_of outs)
+     = [(0, 0, 12, [120; 9; 49]); (0, 5, 9, []); (0, 5, 130, [121]); (1, 3, 4, [122])]
+  /\ fc = 3 /\ Nlen bs = 3244.
+Proof.
+  do 4 eexists. split; [vm_compute; reflexivity|]. split; [vm_compute; reflexivity|].
+  split.
+  { unfold bed_hyps. split; [cbn; lia|]. split; [cbn; lia|]. split; [vm_compute; reflexivity|]. split.
+    - unfold bed_input_ok, c09_bb_input, name_ok, bentry_ok, W32. 
+      repeat (constructor; [cbn [fst snd e_start e_end e_rest]; repeat split; try discriminate; try lia; repeat (constructor; try lia; try discriminate)|]).
+      constructor.
+    - split; [|vm_compute; reflexivity]. unfold c09_bb_sizes, W32. repeat (constructor; [cbn [snd]; lia|]). constructor. }
+  split; [apply Forall_forall; intros z Hz; vm_compute in Hz; unfold W32; destruct Hz as [<-|[<-|[]]]; lia|].
+  split; [intros zs E; injection E as <-; unfold W32; repeat (constructor; [lia|]); constructor|].
+  split; [reflexivity|].
+  split; [vm_compute; reflexivity|]. split; [vm_compute; reflexivity|]. split; vm_compute; reflexivity.
+Qed.
